@@ -1,6 +1,6 @@
 ------------------------------ MODULE SigSysMon ------------------------------
 (* Observer for traces of the real relay + real clients (drivers/sigsys).
-   Lines: reset(b) / ev(a, p, i) / final(sends = sequence of [p, i, data, res, upAtEnd, retSeq], recvs = sequence of [p, i, data, from, seq]).
+   Lines: reset(b) / ev(a, p, i) / final(listens = sequence of [p, i, wants, partnerUp], sends = sequence of [p, i, data, res, upAtEnd, retSeq], recvs = sequence of [p, i, data, from, seq]).
    seq / retSeq come from one global counter, so "received before the Send returned" is an order on observed events. *)
 EXTENDS Naturals, Integers, Sequences, FiniteSets, TLC, Json, IOUtils
 Trace == ndJsonDeserialize(IOEnv.TRACE)
@@ -25,6 +25,9 @@ Final ==
          \cup {<<"C19", "an application received a message its partner never sent", bi>> :
                   k \in {j \in RI : ~\E i \in SI : S[i].p = Other(R[j].p) /\ S[i].data = R[j].data}}
          \cup {<<"C19", "a received message is attributed to the wrong sender", bi>> : k \in {j \in RI : R[j].from # Other(R[j].p)}}
+         \cup {<<"C24", "a listening client does not know exactly the peers that hold a session request towards it", bi>> :
+                  k \in {j \in 1..Len(E.listens) : LET L == E.listens[j] IN
+                            {L.wants[x] : x \in 1..Len(L.wants)} # (IF L.partnerUp THEN {Other(L.p)} ELSE {})}}
   /\ UNCHANGED bi
 Next == Reset \/ Ev \/ Final
 Spec == Init /\ [][Next]_vars
